@@ -116,12 +116,6 @@ int parity_chsize(struct snapraid_parity_handle* handle, struct snapraid_parity*
 void parity_size(struct snapraid_parity_handle* handle, data_off_t* out_size);
 
 /**
- * Check if all the parity split files have at least the size recorded for them.
- * Return 0 if at least one file is smaller.
- */
-int parity_is_on_disk(struct snapraid_parity_handle* handle);
-
-/**
  * Open an already existing parity file.
  */
 int parity_open(struct snapraid_parity_handle* handle, const struct snapraid_parity* parity, unsigned level, int mode, uint32_t block_size, data_off_t limit_size);
